@@ -64,3 +64,19 @@ Theorem C10_supersede_cancels : forall st c i h r s, cache_entry st c i = Some h
   slot_of (removeclientrq st c i) s (rq_newid r) = None.
 Proof. exact removeclientrq_cancels. Qed.
 Print Assumptions C10_supersede_cancels.
+
+From RSP Require Import Udp Udp_proofs.
+Local Open Scope Z_scope.
+(* the client association on UDP (udp.c radudpget): a datagram is attributed to the client object that already
+   stands for its source address and port, whatever idle clients precede it in the table, and its own
+   retransmission finds the same object again -- the duplicate cache of C10_repeat is that object's *)
+Theorem C10_udp_same_association : forall l next addr port t id,
+  first_match l addr port = Some id -> snd (fst (udp_arrival l next addr port t)) = id.
+Proof. exact udp_same_association. Qed.
+Print Assumptions C10_udp_same_association.
+
+Theorem C10_udp_retransmission_same_client : forall l next addr port t t',
+  let '(l1, id1, next1) := udp_arrival l next addr port t in
+  snd (fst (udp_arrival l1 next1 addr port t')) = id1.
+Proof. exact udp_retransmission_same_client. Qed.
+Print Assumptions C10_udp_retransmission_same_client.
